@@ -315,6 +315,125 @@ func genDoc(rng *core.Rand, risky string, maxLines int) string {
 	return s
 }
 
+// ---------------------------------------------------------------- heredoc stream
+//
+// heredocDoc: the heredoc-end rule exists TWICE in the tree (lexer.go (*lexer).next and the
+// formatter's own copy, formatter.go Format: "the heredoc ends with the first occurrence of the
+// marker"). The two copies only stay in step on bodies that contain the marker's letters in
+// other places than the closing line, so this stream puts them there: glued to the end / start
+// / middle of longer words (`seeEOF`, `EOFx`, `aEOFb`), alone in the middle of a body line,
+// twice on a line; with several blanks inside body lines, blank body lines, braces, comments
+// and quotes in the body, indented / differently indented closing markers, markers of length
+// 1..4 (and longer), on the top level and nested in site blocks, with tokens after the closing
+// marker. On the unchanged tree most of these end the heredoc early at BOTH sites (the rest of
+// the body is ordinary tokens, or the lexer rejects the mismatched padding — the same way
+// before and after Format).
+var hdMarkers = []string{"X", "E", "Z", "EO", "a1", "_-", "EOF", "END", "x-y", "HTML", "TEXT", "EOF2", "MARKER"}
+
+var hdWords = []string{"see", "for", "details", "a", "b", "text", "<p>", "</p>", "no", "é", "x=y", "1", "the", "end"}
+
+func heredocDoc(rng *core.Rand) string {
+	m := rng.Pick(hdMarkers)
+	depth := rng.Intn(3)
+	if rng.Chance(1, 2) {
+		depth = 0
+	}
+	var sb strings.Builder
+	for d := 0; d < depth; d++ {
+		sb.WriteString(strings.Repeat("\t", d) + rng.Pick([]string{"example.com", ":8080", "handle", "route /a*"}) + " {\n")
+	}
+	ind := strings.Repeat("\t", depth)
+	if rng.Chance(1, 4) {
+		ind = strings.Repeat("  ", depth)
+	}
+	pad := ind + rng.Pick([]string{"", "", "\t", "  ", "\t\t", " ", "    "})
+	blanks := func() string {
+		if rng.Chance(1, 2) {
+			return " "
+		}
+		return rng.Pick([]string{"  ", "   ", "\t", " \t ", "     "})
+	}
+	glue := func() string { // a word carrying the marker's letters
+		switch rng.Intn(6) {
+		case 0, 1:
+			return rng.Pick(hdWords) + m // end of a longer word: `seeEOF`
+		case 2:
+			return m + rng.Pick(hdWords) // start: `EOFdetails`
+		case 3:
+			return rng.Pick(hdWords) + m + rng.Pick(hdWords) // middle
+		case 4:
+			return m // alone, but not on the closing line
+		}
+		return rng.Pick(hdWords) + m + m
+	}
+	sb.WriteString(ind + rng.Pick([]string{"respond", "respond /x", "header X-A", "a", "templates"}) + blanks() + "<<" + m + "\n")
+	nl := 1 + rng.Intn(4)
+	gl := rng.Intn(nl) // the body line that gets the glued marker (3 of 4 documents)
+	if rng.Chance(1, 4) {
+		gl = -1
+	}
+	for l := 0; l < nl; l++ {
+		if l != gl && rng.Chance(1, 8) {
+			sb.WriteString(rng.Pick([]string{"\n", "\n", pad + "\n", pad + "{\n", pad + "}\n", pad + "# c  d\n", pad + "\"q  r\"\n", pad + "a {   b\n"}))
+			continue
+		}
+		lp := pad
+		if rng.Chance(1, 10) {
+			lp = pad + rng.Pick([]string{" ", "\t", "  "}) // deeper than the closing marker: kept as text
+		}
+		sb.WriteString(lp)
+		nw := 1 + rng.Intn(4)
+		gw := rng.Intn(nw)
+		for w := 0; w < nw; w++ {
+			if w > 0 {
+				sb.WriteString(blanks())
+			}
+			if l == gl && w == gw {
+				sb.WriteString(glue())
+			} else {
+				sb.WriteString(rng.Pick(hdWords))
+			}
+		}
+		if rng.Chance(1, 10) {
+			sb.WriteString(rng.Pick([]string{" ", "  ", "\t"})) // trailing blanks in the body
+		}
+		sb.WriteString("\n")
+	}
+	cp := pad
+	if rng.Chance(1, 6) { // closing marker indented differently from the body
+		cp = ind + rng.Pick([]string{"", "\t", "  ", " ", "\t\t\t"})
+	}
+	sb.WriteString(cp + m)
+	if rng.Chance(1, 5) {
+		sb.WriteString(blanks() + rng.Pick([]string{"200", "b", "{x}", "\"q\""}))
+	}
+	sb.WriteString("\n")
+	if rng.Chance(1, 3) {
+		sb.WriteString(ind + rng.Pick(hdWords) + blanks() + rng.Pick(hdWords) + "\n")
+	}
+	for d := depth - 1; d >= 0; d-- {
+		sb.WriteString(strings.Repeat("\t", d) + "}\n")
+	}
+	s := sb.String()
+	if rng.Chance(1, 12) {
+		s = strings.TrimRight(s, "\n")
+	}
+	return s
+}
+
+// heredocFixed: the shapes above, spelled out (replayed first in every tier)
+var heredocFixed = []string{
+	"respond <<EOF\n  seeEOF   for   details\n  EOF\n",
+	"respond <<EOF\n\n  seeEOF   for   details\n  EOF\n",
+	"respond <<EOF\n  one\n  seeEOF   for   details\n  EOF\n",
+	"example.com {\n\trespond <<HTML\n\t\t<p>noHTML   here</p>\n\t\tHTML\n}\n",
+	"a <<X\n\tfooX {   b\n\tX\n",
+	"a <<X\n\n\tfooX   b\n\tX\n",
+	"a <<X\n\tXfoo   b\n\tX\n",
+	"a <<EO\n\n  aEOb   c\n    EO\n",
+	"a <<E\n\n  E   c\n  E\n",
+}
+
 // ---------------------------------------------------------------- shipped corpus
 
 var corpusCache []string
@@ -455,6 +574,21 @@ func (*prop) Generate(rng *core.Rand, tier string, emit func(string)) {
 		maxLen = 5
 	}
 	enumerate(maxLen, emitS)
+	// the heredoc stream (heredocDoc): the marker's letters inside the body
+	hdR := rng.Fork()
+	for _, s := range heredocFixed {
+		emitS(s)
+	}
+	nh := 3000
+	switch tier {
+	case "thorough":
+		nh = 60000
+	case "search":
+		nh = 12000
+	}
+	for c := 0; c < nh; c++ {
+		emitS(heredocDoc(hdR))
+	}
 	for c := 0; c < n; c++ {
 		switch x := c % 20; {
 		case x < 8:
